@@ -315,6 +315,48 @@ def opJSONMsg (ms obs : String) : Verdict :=
         | none => some "JsonMessage.ReadFrom refused what JsonMessage.WriteTo wrote"
     { model, spec }
 
+/-- the JSON form read through the packet field `JsonMessage.ReadFrom`: the text framed as a protocol String
+(C06 model), then exactly `Message.UnmarshalJSON` — top-level string, list and object shapes alike -/
+def opJSONMsgRd (hexTok treeTok obs : String) : Verdict :=
+  let cls := clsOf obs
+  let toks := obs.splitOn " "
+  let direct := (kv toks "direct").getD "?"
+  match parseHex hexTok with
+  | none => { model := "bad-arg" }
+  | some text =>
+  let n := (stringEnc text).2
+  if treeTok == "!" then
+    { model := s!"err n={n} direct={direct}",
+      spec := match badPanic cls with
+        | some w => some w
+        | none => if direct == "panic" then some "UnmarshalJSON panicked" else none }
+  else
+  match parseTreeTok treeTok with
+  | none => { model := "bad-arg" }
+  | some t =>
+    let r := unmarshalJSON t
+    let inexact := hasDupKeys t || !contentsNumbersCanonical t
+    let model :=
+      match r with
+      | .ok m => if inexact && cls == "ok" && direct == "ok" && kv toks "n" == some (toString n) then obs
+                 else s!"ok {showMsg m} n={n} direct=ok"
+      | _ => s!"err n={n} direct=err"
+    let spec : Option String :=
+      match badPanic cls with
+      | some w => some w
+      | none =>
+        if direct == "panic" then some "UnmarshalJSON panicked" else
+        if direct == "differs" then some "JsonMessage.ReadFrom and Message.UnmarshalJSON decode one text to different components" else
+        if (cls == "ok") != (direct == "ok") then some "JsonMessage.ReadFrom and Message.UnmarshalJSON disagree on accepting a text" else
+        match jsonToMsg t with
+        | some want =>
+          if cls != "ok" then some "a well-formed text component (string / object / list) was refused by JsonMessage.ReadFrom"
+          else match (toks.getD 1 "") |> parseMsgTok with
+            | some got => if Msg.beq (simplify got) (simplify want) then none else some "decoded to a different component"
+            | none => some "unparseable observation"
+        | none => none
+    { model, spec }
+
 def opJSONMsgDec (arg obs : String) : Verdict :=
   match parseHex arg with
   | none => { model := "bad-arg" }
@@ -560,6 +602,87 @@ def opRender (langs ms obs : String) : Verdict :=
         | none => none
     { model, spec }
 
+/-- a history of `SetLanguage` calls, then rendering: the model folds `setLanguage` over the steps (the table
+`E…` is `en_us.Map`, given by its entries for the keys in use); the spec renders under the LAST step alone and
+wants `en_us.Map` unchanged -/
+def opLang (stepsTok msTok obs : String) : Verdict :=
+  let stepToks := stepsTok.splitOn ";"
+  let tables := stepToks.map fun t => parseLang (if t.startsWith "E" then (t.drop 1).toString else t)
+  match (msTok.splitOn ";").mapM parseMsgTok with
+  | none => { model := "bad-arg" }
+  | some ms =>
+    let fnOf (table : List (Bytes × Bytes)) : Bytes → Bytes := fun k => (lookupKey k table).getD []
+    let lang := languageAfter (fun _ => []) (tables.map fnOf)
+    let cls := clsOf obs
+    let toks := obs.splitOn " "
+    let rs := ms.map fun m =>
+      match clearString lang m, ansiString lang m with
+      | .ok (p, e1), .ok (a, e2) => if e1 && e2 then some s!"{hexRaw p}/{hexRaw a}" else none
+      | _, _ => some "panic"
+    let model :=
+      if rs.all Option.isSome then "ok r=" ++ ";".intercalate (rs.map fun r => r.getD "") ++ " en=same"
+      else if cls == "ok" && kv toks "en" == some "same" then obs else "ok"
+    let spec : Option String :=
+      match badPanic cls with
+      | some w => some w
+      | none =>
+        if kv toks "en" != some "same" then some "SetLanguage changed the contents of en_us.Map" else
+        let last := tables.getLast?.getD []
+        let got := ((kv toks "r").getD "").splitOn ";" |>.map fun r => (r.splitOn "/").headD ""
+        let bad := (ms.zip got).find? fun (m, g) =>
+          match plainOf (fun k => lookupKey k last) m with
+          | some want => g != hexRaw want
+          | none => false
+        match bad with
+        | some (m, _) => some s!"rendering does not use exactly the last language set: {showMsg m}"
+        | none => none
+    { model, spec }
+
+/-- the component put together with the model's constructors, the way the harness builds it -/
+partial def rebuild (m : Msg) : Msg :=
+  let msgArgs : Option (List Msg) := m.args.mapM fun a => match a with | .inl x => some (rebuild x) | .inr _ => none
+  let base : Msg :=
+    match m.translate != [] && !m.args.isEmpty, msgArgs with
+    | true, some as => { translateMsg m.translate as with text := m.text }
+    | _, _ => { Chat.text m.text with translate := m.translate, args := m.args }
+  let base := { base with bold := m.bold, italic := m.italic, underlined := m.underlined, strikethrough := m.strikethrough,
+                          obfuscated := m.obfuscated, font := m.font, insertion := m.insertion, click := m.click,
+                          hover := m.hover.map fun (a, c, v) => (a, c, rebuild v) }
+  let base := if m.color != [] then setColor base m.color else base
+  if m.extra.isEmpty then base else Chat.append base (m.extra.map rebuild)
+
+def opBuild (langs ms obs : String) : Verdict :=
+  match parseMsgTok ms with
+  | none => { model := "bad-arg" }
+  | some m =>
+    let cls := clsOf obs
+    let toks := obs.splitOn " "
+    let table := parseLang langs
+    let lang : Bytes → Bytes := fun k => (lookupKey k table).getD []
+    -- outside the modelled formats (`%d`, `%v` … of a component) fmt prints the struct, pointer fields as addresses:
+    -- the two renderings may then differ, and are not compared
+    let exact := match clearString lang m, ansiString lang m with
+      | .ok (_, e1), .ok (_, e2) => e1 && e2
+      | _, _ => false
+    let toks := if exact then toks else toks.map fun t => if t.startsWith "plain=" then "plain=1" else if t.startsWith "ansi=" then "ansi=1" else t
+    let model :=
+      if exact then s!"ok tok={showMsg (rebuild m)} deep=1 json=1 nbt=1 plain=1 ansi=1"
+      else s!"ok tok={showMsg (rebuild m)} deep=1 json=1 nbt=1 plain={(kv (obs.splitOn " ") "plain").getD "?"} ansi={(kv (obs.splitOn " ") "ansi").getD "?"}"
+    let spec : Option String :=
+      match badPanic cls with
+      | some w => some w
+      | none =>
+        match (kv toks "tok").bind parseMsgTok with
+        | none => some "a component built with the public constructors holds something other than components and strings as arguments"
+        | some b =>
+          if !(Msg.beq b m) || kv toks "deep" != some "1" then some "a component built with the public constructors is not the component written as a literal"
+          else if kv toks "plain" != some "1" then some "ClearString differs between the constructor-built component and the literal"
+          else if kv toks "ansi" != some "1" then some "String differs between the constructor-built component and the literal"
+          else if kv toks "json" != some "1" then some "the JSON form differs between the constructor-built component and the literal"
+          else if kv toks "nbt" != some "1" then some "the NBT form differs between the constructor-built component and the literal"
+          else none
+    { model, spec }
+
 def opDecorate (keys ps sts ss ts cs obs : String) : Verdict :=
   let key := if keys == "-" then some [] else parseHexChars keys.toList []
   let params : Option (List Bytes) :=
@@ -576,9 +699,12 @@ def handle (op : String) (args : List String) (obs : String) : Option Verdict :=
   | "chat.json.dec", [_, t] => some (opJSONDec t obs)
   | "chat.jsonmsg", [m] => some (opJSONMsg m obs)
   | "chat.jsonmsg.dec", [a] => some (opJSONMsgDec a obs)
+  | "chat.jsonmsg.rd", [h, t] => some (opJSONMsgRd h t obs)
   | "chat.nbt", [m] => some (opNBT m obs)
   | "chat.nbt.dec", [a] => some (opNBTDec a obs)
   | "chat.render", [l, m] => some (opRender l m obs)
+  | "chat.build", [l, m] => some (opBuild l m obs)
+  | "chat.lang", [st, ms] => some (opLang st ms obs)
   | "chat.type", [i, s, t] => some (opType false i s t obs)
   | "chat.type.reuse", [i, s, t] => some (opType true i s t obs)
   | "chat.type.dec", [a] => some (opTypeDec a obs)
